@@ -128,7 +128,7 @@ package omap
 //@   requires [C04] iterOK(it) && (it.m != nil ==> treeInv(it.m) && keyOnly(it.m))
 //@   ensures  [C04] same: result == it && iterOK(it) && it.m == old(it.m)
 //@   ensures  [C04] zeromap: it.m == nil ==> !itValid(it)
-//@   ensures  [C04] found: itValid(it) ==> forall kv stree.KV[T, U] :: {rank(it.m.compare, kv)} kv.Key == key ==> itRank(it) in it.m.elems && itRank(it) >= rank(it.m.compare, kv) && (forall k int :: {k in it.m.elems} k in it.m.elems && k >= rank(it.m.compare, kv) ==> k > itRank(it))
+//@   ensures  [C04] found: itValid(it) ==> forall kv stree.KV[T, U] :: {rank(it.m.compare, kv)} kv.Key == key ==> itRank(it) in it.m.elems && itRank(it) >= rank(it.m.compare, kv) && (forall k int :: {k in it.m.elems} k in it.m.elems && k >= rank(it.m.compare, kv) ==> k >= itRank(it))
 //@   ensures  [C04] none: it.m != nil && !itValid(it) ==> forall kv stree.KV[T, U] :: {rank(it.m.compare, kv)} kv.Key == key ==> (forall k int :: {k in it.m.elems} k in it.m.elems ==> k < rank(it.m.compare, kv))
 //@   modifies it.c
 //@   loop 1: invariant [C04] before: it1 == 0 ==> it.c == nil
